@@ -240,6 +240,7 @@ func runMeasureHistory(x *verifkit.Ctx, c mCase) (st histStats, err error) {
 	}
 	var allBatches []batchRec
 	flushedBatches := 0
+	batchMemPart := map[int]uint64{}
 	open := map[int]*openQuery{}
 	pinnedMerges := map[int]int{}
 	boundarySid := 0
@@ -328,9 +329,19 @@ func runMeasureHistory(x *verifkit.Ctx, c mCase) (st histStats, err error) {
 					st.keysInTwoParts = true
 				}
 			}
+			before := map[uint64]bool{}
+			for _, pi := range tb.parts() {
+				before[pi.id] = true
+			}
 			tb.writeSeg(c.Schemas[v], rows, op.Seg)
 			m.add(rows, v)
 			allBatches = append(allBatches, batchRec{rows, v})
+			// the memory part this batch went into (a batch is "flushed" once that memory part is gone)
+			for _, pi := range tb.parts() {
+				if pi.mem && !before[pi.id] {
+					batchMemPart[len(allBatches)-1] = pi.id
+				}
+			}
 			lastVariant = v
 			st.writes++
 			if len(rows) > maxBlockLength {
@@ -380,10 +391,24 @@ func runMeasureHistory(x *verifkit.Ctx, c mCase) (st histStats, err error) {
 			if err := checkSnapshotDir(dst); err != nil {
 				return st, fmt.Errorf("op %d snapshot: %v", i, err)
 			}
+			// a memory-part merge round only persists the groups it merged: a batch whose own memory part is
+			// still in the snapshot is not part of a file snapshot
+			stillMem := map[uint64]bool{}
+			for _, pi := range tb.parts() {
+				if pi.mem {
+					stillMem[pi.id] = true
+				}
+			}
 			want := newModel()
-			for _, b := range allBatches[:flushedBatches] {
+			nFlushed := 0
+			for bi, b := range allBatches {
+				if id, ok := batchMemPart[bi]; ok && stillMem[id] {
+					continue
+				}
+				nFlushed++
 				want.add(b.rows, b.variant)
 			}
+			flushedBatches = nFlushed
 			rt := openL1(dst, nil)
 			for v := range c.Schemas {
 				got, _, qerr := rt.query(c.Schemas[v], fullQuery(v, "sid"))
@@ -442,7 +467,7 @@ func runMeasureHistory(x *verifkit.Ctx, c mCase) (st histStats, err error) {
 			continue
 		case "merge":
 			// equivalence of the merge output with the union of its inputs
-			nin, conflict, merr := mergeWithEquivalence(tb, c, op.Pick, sids)
+			nin, conflict, merr := mergeWithEquivalence(tb, c, op.Pick, sids, m)
 			if merr != nil {
 				return st, fmt.Errorf("op %d merge: %v", i, merr)
 			}
@@ -527,7 +552,7 @@ func runMeasureHistory(x *verifkit.Ctx, c mCase) (st histStats, err error) {
 // scans the output part alone. The output must hold, under every schema variant, exactly the keys
 // of the inputs, each with the maximal version found in the inputs and with the content of one of
 // the input rows carrying that version (a version tie admits any of them).
-func mergeWithEquivalence(tb *l1Table, c mCase, pick []int, sids []int) (nin int, conflict bool, err error) {
+func mergeWithEquivalence(tb *l1Table, c mCase, pick []int, sids []int, model *mModel) (nin int, conflict bool, err error) {
 	s := tb.tst.currentSnapshot()
 	if s == nil {
 		return 0, false, nil
@@ -623,7 +648,10 @@ func mergeWithEquivalence(tb *l1Table, c mCase, pick []int, sids []int) (nin int
 			if r.ver != e.ver {
 				return 0, false, fmt.Errorf("merged part holds series %d ts %d at version %d, its inputs hold version %d", r.sid, r.ts, r.ver, e.ver)
 			}
-			if !e.renders[render(r)] {
+			// a part may hold several rows of one (series, timestamp, version) in different blocks; scanning it
+			// alone shows one of them, the merge may surface another: any acknowledged row of that exact key
+			// and version is an admissible tie candidate
+			if !e.renders[render(r)] && !model.wrote(c.Schemas, v, r.sid, r.ts/nanosPerMs-baseMillis, r.ver, render(r)) {
 				return 0, false, fmt.Errorf("merged part (schema variant %d) series %d ts %d version %d holds %q, inputs hold %v", v, r.sid, r.ts, r.ver, render(r), e.renders)
 			}
 		}
